@@ -260,6 +260,15 @@ class SymbolicExpression(Generic[T], ABC):
         return conditions_root
 
     @property
+    def _is_conditions_root_(self) -> bool:
+        """
+        Whether this expression is evaluated as the condition of a query descriptor. An expression can be used in
+        several queries, in different roles, so this is decided from the parent of the current evaluation.
+        """
+        parent = self._parent_
+        return isinstance(parent, QueryObjectDescriptor) and parent._child_ is self
+
+    @property
     def _root_(self) -> SymbolicExpression:
         """
         Get the root of the symbolic expression tree.
@@ -986,7 +995,7 @@ class Variable(CanBehaveLikeAVariable[T]):
         if self._id_ in sources:
             if (
                 isinstance(self._parent_, LogicalBinaryOperator)
-                or self is self._conditions_root_
+                or self._is_conditions_root_
             ):
                 self._is_false_ = not bool(sources[self._id_])
             yield OperationResult(sources, not bool(sources[self._id_]), self)
@@ -1154,7 +1163,7 @@ class DomainMapping(CanBehaveLikeAVariable[T], ABC):
         :param current_value: The current value of this operation that is derived from the child result.
         :return: The operation result.
         """
-        if isinstance(self._parent_, LogicalOperator) or self is self._conditions_root_:
+        if isinstance(self._parent_, LogicalOperator) or self._is_conditions_root_:
             self._is_false_ = not bool(current_value)
         return OperationResult(
             {**child_result.bindings, self._id_: current_value},
